@@ -2128,6 +2128,19 @@ def call_recursive_spec(interp, fn, args, kwargs):
     return wrap(app)
 
 
+def m_rec_app(interp, args, kwargs):
+    """contracts.common.rec_app(fn, *args): the application of a recursive spec function, not unfolded here"""
+    fn = args[0]
+    if not getattr(fn, '_pv_recursive', False):
+        raise Unsupported('rec_app: not a recursive spec function')
+    active = interp.st.ghost.setdefault('@rec-active', [])
+    active.append(fn)
+    try:
+        return call_recursive_spec(interp, fn, list(args[1:]), kwargs)
+    finally:
+        active.pop()
+
+
 def m_is_opaque(interp, args, kwargs):
     x = args[0]
     if isinstance(x, (SOpt, SChoice)):
